@@ -431,33 +431,36 @@ theorem l2_who_receives_what (l sh : Nat) (now : Int) (ops : List Life2.Op) (u k
   have h := wf_run (wf_init l sh now) ops u k i act ha
   exact ⟨h.2, h.1⟩
 
-/-- a cancelled (soft-failed) execution moves no token at all: escrow stays whole until close returns it. -/
-theorem l2_soft_failure {s s' : Life2.St} {who : Life.Who} {u k i fee x y : Nat} {throw fail : Bool} {paid : Nat}
-    (h : Life2.exec s who u k i fee throw fail x y = some (s', .cancelled, paid)) :
+/-- a cancelled (soft-failed) execution moves no token at all: escrow stays whole until close returns it (and no position
+changes size). -/
+theorem l2_soft_failure {s s' : Life2.St} {who : Life.Who} {u k i fee x y cl cs ch : Nat} {throw fail hard pc : Bool} {paid : Nat}
+    (h : Life2.exec s who u k i fee throw fail x y hard cl cs ch pc = some (s', .cancelled, paid)) :
     throw = false ∧ ∃ act, s.acts u k i = some act ∧ s'.acts u k i = some { act with state := 2 } ∧
       s'.users = s.users ∧ s'.vaultLong = s.vaultLong ∧ s'.vaultShort = s.vaultShort ∧
-      s'.recLong = s.recLong ∧ s'.recShort = s.recShort ∧ Life2.supply s' = Life2.supply s := by
-  obtain ⟨_, _, act, ha, _, _, hcase⟩ := exec_some h
-  rcases hcase with ⟨_, ht, rfl⟩ | ⟨ho, _⟩
-  · exact ⟨ht, act, ha, by simp [acts_setAct], rfl, rfl, rfl, rfl, rfl, rfl⟩
+      s'.recLong = s.recLong ∧ s'.recShort = s.recShort ∧ Life2.supply s' = Life2.supply s ∧ s'.posSize = s.posSize := by
+  obtain ⟨_, _, act, ha, _, _, _, hcase⟩ := exec_some h
+  rcases hcase with ⟨_, ht, hacts, hu, ⟨f1, f2, f3, f4, f5, f6⟩, hsz, _⟩ | ⟨ho, _⟩
+  · exact ⟨ht, act, ha, by rw [hacts]; simp [acts_setAct], hu, f1, f2, f3, f4, by simp [Life2.supply, f5, f6], hsz⟩
   · cases ho
 
 /-- (a) **Exactly once**, one transaction: only a pending action executes, it ends completed or cancelled,
-and it can never be executed again (by anyone, with any arguments). -/
-theorem l2_exec_once {s s' : Life2.St} {who : Life.Who} {u k i fee x y : Nat} {throw fail : Bool} {o : Life2.Outcome} {paid : Nat}
-    (h : Life2.exec s who u k i fee throw fail x y = some (s', o, paid)) :
+and it can never be executed again (by anyone, with any arguments) — every kind, decrease orders included. -/
+theorem l2_exec_once {s s' : Life2.St} {who : Life.Who} {u k i fee x y cl cs ch : Nat} {throw fail hard pc : Bool}
+    {o : Life2.Outcome} {paid : Nat}
+    (h : Life2.exec s who u k i fee throw fail x y hard cl cs ch pc = some (s', o, paid)) :
     who = .keeper ∧ (∃ act, s.acts u k i = some act ∧ act.state = 0) ∧
     (∃ act', s'.acts u k i = some act' ∧ (act'.state = 1 ∨ act'.state = 2)) ∧
-    ∀ who' fee' throw' fail' x' y' hard', Life2.exec s' who' u k i fee' throw' fail' x' y' hard' = none := by
-  obtain ⟨_, hw, act, ha, hst, _, hcase⟩ := exec_some h
+    ∀ who' fee' throw' fail' x' y' hard' cl' cs' ch' pc',
+      Life2.exec s' who' u k i fee' throw' fail' x' y' hard' cl' cs' ch' pc' = none := by
+  obtain ⟨_, hw, act, ha, hst, _, _, hcase⟩ := exec_some h
   have hafter : ∃ act', s'.acts u k i = some act' ∧ (act'.state = 1 ∨ act'.state = 2) := by
-    rcases hcase with ⟨_, _, rfl⟩ | ⟨_, _, _, hcomp⟩
-    · exact ⟨{ act with state := 2 }, by simp [acts_setAct], Or.inr rfl⟩
-    · obtain ⟨act', h1, h2, _⟩ := complete_some hcomp
+    rcases hcase with ⟨_, _, hacts, _⟩ | ⟨_, _, _, hcomp⟩
+    · exact ⟨{ act with state := 2 }, by rw [hacts]; simp [acts_setAct], Or.inr rfl⟩
+    · obtain ⟨act', h1, _, h2, _⟩ := complete_some hcomp
       exact ⟨act', by rw [h2]; simp [acts_setAct], Or.inl h1⟩
   refine ⟨hw, ⟨act, ha, hst⟩, hafter, ?_⟩
   obtain ⟨act', ha', hs'⟩ := hafter
-  intro who' fee' throw' fail' x' y' hard'
+  intro who' fee' throw' fail' x' y' hard' cl' cs' ch' pc'
   unfold Life2.exec
   by_cases hh : hard' = true
   · simp [hh]
@@ -481,14 +484,103 @@ theorem l2_exactly_once_history (l sh : Nat) (now : Int) (ops : List Life2.Op) (
   exact ⟨by omega, by omega⟩
 
 /-- other users' and other slots' actions are untouched by an execution (interleaving is safe). -/
-theorem l2_exec_frame {s s' : Life2.St} {who : Life.Who} {u k i fee x y : Nat} {throw fail : Bool} {o : Life2.Outcome} {paid : Nat}
-    (h : Life2.exec s who u k i fee throw fail x y = some (s', o, paid)) :
+theorem l2_exec_frame {s s' : Life2.St} {who : Life.Who} {u k i fee x y cl cs ch : Nat} {throw fail hard pc : Bool}
+    {o : Life2.Outcome} {paid : Nat}
+    (h : Life2.exec s who u k i fee throw fail x y hard cl cs ch pc = some (s', o, paid)) :
     s'.users = s.users ∧ ∀ a b c, ¬ (a = u ∧ b = k ∧ c = i) → s'.acts a b c = s.acts a b c := by
-  obtain ⟨_, _, act, _, _, _, hcase⟩ := exec_some h
-  rcases hcase with ⟨_, _, rfl⟩ | ⟨_, _, _, hcomp⟩
-  · exact ⟨rfl, fun a b c hne => by simp [acts_setAct, hne]⟩
-  · obtain ⟨act', _, h2, h3, _⟩ := complete_some hcomp
+  obtain ⟨_, _, act, _, _, _, _, hcase⟩ := exec_some h
+  rcases hcase with ⟨_, _, hacts, hu, _⟩ | ⟨_, _, _, hcomp⟩
+  · exact ⟨hu, fun a b c hne => by rw [hacts]; simp [acts_setAct, hne]⟩
+  · obtain ⟨act', _, _, h2, h3, _⟩ := complete_some hcomp
     exact ⟨h3, fun a b c hne => by rw [h2]; simp [acts_setAct, hne]⟩
+
+/-! #### stage 3c: market-decrease orders (kind 5) on the position opened by increase orders -/
+
+/-- **A decrease needs a live position**: while the position account of `u` does not exist, no decrease order of `u`
+can be created, and no position order of `u` (increase or decrease) can be executed — by anyone, with any arguments. -/
+theorem l2_no_position_no_decrease (s : Life2.St) (u : Nat) (hp : s.posOpen u = false) :
+    (∀ i a b soft el rc, Life2.create s u 5 i a b soft el rc = none) ∧
+    (∀ who k i fee throw fail x y hard cl cs ch pc, k ≥ 4 →
+      Life2.exec s who u k i fee throw fail x y hard cl cs ch pc = none) := by
+  constructor
+  · intro i a b soft el rc
+    rcases Option.eq_none_or_eq_some (Life2.create s u 5 i a b soft el rc) with h | ⟨s', h⟩
+    · exact h
+    · unfold Life2.create at h
+      split at h; · cases h
+      simp only at h
+      split at h; · cases h
+      split at h; · cases h
+      simp [hp] at h
+  · intro who k i fee throw fail x y hard cl cs ch pc hk
+    rcases Option.eq_none_or_eq_some (Life2.exec s who u k i fee throw fail x y hard cl cs ch pc) with h | ⟨⟨s', o, paid⟩, h⟩
+    · exact h
+    · obtain ⟨_, _, _, _, _, ho, _⟩ := exec_some h
+      rw [ho hk] at hp; cases hp
+
+/-- **What a completed decrease does to the position**: it needs an open position of positive size; afterwards the
+position is closed exactly when the execution declared it closed, and then its size is 0; otherwise it stays open
+with the strictly positive remainder `size − requested`. Nobody else's position changes. -/
+theorem l2_decrease_position {s s' : Life2.St} {who : Life.Who} {u i fee x y cl cs ch : Nat} {throw fail hard pc : Bool} {paid : Nat}
+    (h : Life2.exec s who u 5 i fee throw fail x y hard cl cs ch pc = some (s', .completed, paid)) :
+    s.posOpen u = true ∧ 0 < s.posSize u ∧
+    (s'.posOpen u = false ↔ s'.posSize u = 0) ∧ (s'.posOpen u = false ↔ pc = true) ∧
+    (∃ act, s.acts u 5 i = some act ∧ (pc = false → act.size < s.posSize u ∧ s'.posSize u = s.posSize u - act.size)) ∧
+    (∀ v, v ≠ u → s'.posOpen v = s.posOpen v ∧ s'.posSize v = s.posSize v) := by
+  obtain ⟨_, _, act, ha, _, _, _, hcase⟩ := exec_some h
+  rcases hcase with ⟨ho, _⟩ | ⟨_, _, _, hcomp⟩
+  · cases ho
+  · obtain ⟨h1, h2, h3, h4, h5, h6, _⟩ := complete_decrease (Nat.le_refl 5) hcomp
+    refine ⟨h1, h2, ?_, ?_, ⟨act, ha, ?_⟩, h6⟩
+    · cases pc with
+      | true => simp [h3, h4]
+      | false => have := h5 rfl; simp [h3, h4]; omega
+    · cases pc <;> simp [h3]
+    · intro hpc; subst hpc; exact ⟨h5 rfl, by simp [h4]⟩
+
+/-- **A position whose size reached 0 is closed and cannot be decreased again** — one transaction: after a completed
+decrease that leaves size 0 the position account is gone, so no further decrease order can be created and no pending
+position order of that user can be executed, until a new increase order re-creates the position. -/
+theorem l2_zero_size_is_final {s s' : Life2.St} {who : Life.Who} {u i fee x y cl cs ch : Nat} {throw fail hard pc : Bool} {paid : Nat}
+    (h : Life2.exec s who u 5 i fee throw fail x y hard cl cs ch pc = some (s', .completed, paid)) (hz : s'.posSize u = 0) :
+    s'.posOpen u = false ∧ (∀ j a b soft el rc, Life2.create s' u 5 j a b soft el rc = none) ∧
+    (∀ who' k j fee' throw' fail' x' y' hard' cl' cs' ch' pc', k ≥ 4 →
+      Life2.exec s' who' u k j fee' throw' fail' x' y' hard' cl' cs' ch' pc' = none) := by
+  obtain ⟨_, _, hiff, _⟩ := l2_decrease_position h
+  have hp := hiff.2 hz
+  exact ⟨hp, l2_no_position_no_decrease s' u hp⟩
+
+/-- … and in EVERY history from an empty market: a position account that does not exist has size 0 (sizes never
+survive a close; a size-0 position left by a failed order is removed with size 0). -/
+theorem l2_closed_position_is_empty (l sh : Nat) (now : Int) (ops : List Life2.Op) (u : Nat)
+    (hp : (Life2.run (Life2.init l sh now) ops).1.posOpen u = false) :
+    (Life2.run (Life2.init l sh now) ops).1.posSize u = 0 :=
+  posinv_run (posinv_init l sh now) ops u hp
+
+/-- **Escrow home for decrease orders**: a decrease order escrows nothing, so closing it refunds NOTHING to the owner;
+everything it holds (output token + secondary output token, both paid by the execution) goes to the RECEIVER; in
+every reachable state a pending or cancelled decrease order holds nothing at all. -/
+theorem l2_decrease_close {s s' : Life2.St} {who : Life.Who} {u i : Nat} {act : Life2.Act}
+    (h : Life2.close s who u 5 i = some s') (ha : s.acts u 5 i = some act) :
+    s'.users act.receiver = ⟨(s.users act.receiver).long + act.escLong, (s.users act.receiver).short + act.escShort,
+      (s.users act.receiver).mt⟩ ∧
+    (∀ v, v ≠ act.receiver → s'.users v = s.users v) ∧ s'.acts u 5 i = none := by
+  obtain ⟨act', ha', _, rfl⟩ := close_some h
+  rw [ha] at ha'; cases ha'
+  refine ⟨?_, ?_, by simp [acts_setAct]⟩
+  · by_cases hr : act.receiver = u
+    · simp [Life2.setAct, Life2.credit, Life2.setUser, Life2.inSide, Life2.outSide, hr]
+    · simp [Life2.setAct, Life2.credit, Life2.setUser, Life2.inSide, Life2.outSide, hr]
+  · intro v hv
+    by_cases hu : v = u
+    · subst hu; simp [Life2.setAct, Life2.credit, Life2.setUser, Life2.inSide, Life2.outSide, hv]
+    · simp [Life2.setAct, Life2.credit, Life2.setUser, Life2.inSide, Life2.outSide, hv, hu]
+
+theorem l2_unexecuted_decrease_holds_nothing (l sh : Nat) (now : Int) (ops : List Life2.Op) (u i : Nat) (act : Life2.Act)
+    (ha : (Life2.run (Life2.init l sh now) ops).1.acts u 5 i = some act) (hs : act.state ≠ 1) :
+    act.escLong = 0 ∧ act.escShort = 0 := by
+  have h := (l2_who_receives_what l sh now ops u 5 i act ha).1 hs
+  simpa [Life2.outSide] using h
 
 /-! non-vacuity: two users, a deposit, a withdrawal of part of the minted tokens, a swap, soft failure, closes -/
 private def l2demo : List Life2.Op :=
@@ -527,6 +619,34 @@ example : let s := (Life2.run (Life2.init 10000 5000 100)
     [.create 1 4 0 700 300 false 400000 1, .create 1 4 1 50 9 false 400000 2, .price 0, .exec .keeper 1 4 0 5 true false 0 0,
      .exec .keeper 1 4 1 5 false true 0 0, .close .keeper 1 4 0, .close .keeper 1 4 1]).1
     (s.users 1).long = 9300 ∧ (s.users 2).long = 10000 ∧ s.vaultLong = 700 ∧ s.recLong = 700 := by decide
+
+/-- decrease orders (kind 5) of user 1 for receiver 2: an increase opens 300 USD (30000 cents); a partial decrease of
+10000 cents pays 50 long to the order escrow, 3 + 1 to claimable accounts and leaves 20000 cents; a decrease of
+19950 cents (size − half a unit) is promoted to a full close (`pc`): the position is gone with size 0; a further decrease
+order cannot be created; closing the orders pays the receiver 2, never the owner 1. -/
+private def l2demoX : List Life2.Op :=
+  [.create 1 4 0 700 300 false 400000 1, .price 0, .exec .keeper 1 4 0 5 true false 0 0,
+   .create 1 5 0 0 10000 false 400000 2, .create 1 5 1 0 19950 false 400000 2, .price 0,
+   .exec .keeper 1 5 0 5 true false 50 0 false 3 0 1 false,
+   .exec .keeper 1 5 0 5 true false 50 0 false 3 0 1 false,
+   .exec .keeper 1 5 1 5 true false 640 0 false 0 0 0 true,
+   .create 1 5 2 0 100 false 400000 2, .close (.user 2) 1 5 0, .close .keeper 1 5 0, .close (.user 1) 1 5 1]
+example : (Life2.run (Life2.init 10000 5000 100) l2demoX).2 =
+    [.created 1 4 0, .none, .executed 1 4 0 .completed, .created 1 5 0, .created 1 5 1, .none, .executed 1 5 0 .completed,
+     .none, .executed 1 5 1 .completed, .none, .none, .closed 1 5 0, .closed 1 5 1] := by decide
+example : let s := (Life2.run (Life2.init 10000 5000 100) (l2demoX.take 7)).1
+    s.posOpen 1 = true ∧ s.posSize 1 = 20000 ∧ s.vaultLong = 646 ∧ s.recLong = 646 ∧ s.claimLong = 4 := by decide
+example : let s := (Life2.run (Life2.init 10000 5000 100) l2demoX).1
+    s.posOpen 1 = false ∧ s.posSize 1 = 0 ∧ (s.users 1).long = 9300 ∧ (s.users 2).long = 10690 ∧ (s.users 2).short = 5000 ∧
+    s.vaultLong = 6 ∧ s.recLong = 6 ∧ s.claimLong = 4 := by decide
+/-- hypotheses of `l2_decrease_position` / `l2_zero_size_is_final` are met (partial and promoted close), and afterwards
+no decrease order can be created -/
+example : (Life2.exec (Life2.run (Life2.init 10000 5000 100) (l2demoX.take 6)).1 .keeper 1 5 0 5 true false 50 0 false 3 0 1 false).map
+    (fun r => (r.2.1, r.1.posOpen 1, r.1.posSize 1)) = some (.completed, true, 20000) := by decide
+example : (Life2.exec (Life2.run (Life2.init 10000 5000 100) (l2demoX.take 8)).1 .keeper 1 5 1 5 true false 640 0 false 0 0 0 true).map
+    (fun r => (r.2.1, r.1.posOpen 1, r.1.posSize 1)) = some (.completed, false, 0) := by decide
+example : (Life2.run (Life2.init 10000 5000 100) (l2demoX.take 9)).1.posOpen 1 = false ∧
+    Life2.create (Life2.run (Life2.init 10000 5000 100) (l2demoX.take 9)).1 1 5 2 0 100 false 400000 2 = none := by decide
 
 end Life2
 
